@@ -46,6 +46,18 @@ def _worker(arg):
     hdef = fn.harness
     kn = [k for k in known if fnmatch.fnmatch(hdef.name, k.get('harness', '*'))
           and all(params.get(a) == b for a, b in (k.get('params') or {}).items())]
+    # watchdog: a job that does not come back (e.g. the code under analysis loops forever) is cut
+    import signal
+    limit = int(opts.get('deadline_s', 1800)) + 120
+
+    def _alarm(signum, frame):
+        raise cxm.Budget('job exceeded its wall-clock limit of %d s (the code under analysis may not terminate)' % limit)
+    try:
+        signal.signal(signal.SIGALRM, _alarm)
+        signal.alarm(limit)
+    except (ValueError, OSError):
+        pass
+    opts.setdefault('deadline_s', 1800)
     try:
         res = cxm.run_job(hdef, params, known=kn, repo_prefix=repo_root(), **opts)
     except BaseException as e:   # noqa: BLE001
@@ -53,6 +65,10 @@ def _worker(arg):
         res = cxm.JobResult(hdef.name, params)
         res.status = 'INCONCLUSIVE'
         res.reason = 'worker crashed: %s' % ''.join(traceback.format_exception(type(e), e, e.__traceback__)[-4:])
+    try:
+        signal.alarm(0)
+    except (ValueError, OSError):
+        pass
     return idx, res.__dict__
 
 
